@@ -730,13 +730,10 @@ func SpecNsKey(key string) bool {
 	return SpecHasPrefix(key, "redis-gunyu-bisync:") || SpecHasPrefix(key, "redis-gunyu-checkpoint")
 }
 
-// SpecLower is strings.ToLower; SpecContains is strings.Contains (uninterpreted).
+// SpecLower is strings.ToLower (uninterpreted); strings.Contains is keyspec.SpecContains.
 func SpecLower(s string) string { return s }
 
-func SpecContains(s string, sub string) bool { return false }
-
 //@ spec SpecLower abstract
-//@ spec SpecContains abstract
 
 //@ func strings.HasPrefix(s, prefix) (r)
 //@   trusted library contract (pure)
@@ -746,10 +743,6 @@ func SpecContains(s string, sub string) bool { return false }
 //@   trusted library contract (pure), lower-casing uninterpreted
 //@   modifies nothing
 //@   ensures def: r == SpecLower(s)
-//@ func strings.Contains(s, substr) (r)
-//@   trusted library contract (pure), uninterpreted
-//@   modifies nothing
-//@   ensures def: r == SpecContains(s, substr)
 
 //@ func isBisyncNamespaceKey
 //@   arith int
@@ -780,15 +773,15 @@ func SpecContains(s string, sub string) bool { return false }
 //@ func checkpoint.IsBisyncMarkerKey(key) (r)
 //@   trusted marker keys are "redis-gunyu-bisync:<name>:marker:{<tag>}" (prefix test + uninterpreted containment)
 //@   modifies nothing
-//@   ensures def: r == (SpecHasPrefix(key, "redis-gunyu-bisync:") && SpecContains(key, ":marker:{"))
+//@   ensures def: r == (SpecHasPrefix(key, "redis-gunyu-bisync:") && keyspec.SpecContains(key, ":marker:{"))
 
 //@ func isBisyncMarkerCommand
 //@   arith int
 //@   properties C13
 //@   modifies nothing
-//@   ensures marker_is_a_namespace_set: result <==> SpecLower(cmd.Cmd) == "set" && len(cmd.Args) >= 2 && SpecHasPrefix(string(cmd.Args[0]), "redis-gunyu-bisync:") && SpecContains(string(cmd.Args[0]), ":marker:{")
+//@   ensures marker_is_a_namespace_set: result <==> SpecLower(cmd.Cmd) == "set" && len(cmd.Args) >= 2 && SpecHasPrefix(string(cmd.Args[0]), "redis-gunyu-bisync:") && keyspec.SpecContains(string(cmd.Args[0]), ":marker:{")
 
-//@ pred markerKey(k string): SpecHasPrefix(k, "redis-gunyu-bisync:") && SpecContains(k, ":marker:{")
+//@ pred markerKey(k string): SpecHasPrefix(k, "redis-gunyu-bisync:") && keyspec.SpecContains(k, ":marker:{")
 //@ pred markerSet(c bisyncAofCommand): SpecLower(c.Cmd) == "set" && len(c.Args) >= 2 && markerKey(string(c.Args[0]))
 //@ pred markerExpiry(c bisyncAofCommand): delLike(c.Cmd) && len(c.Args) == 1 && markerKey(string(c.Args[0]))
 //@ func isBisyncMarkerExpiry
@@ -824,7 +817,7 @@ func SpecContains(s string, sub string) bool { return false }
 //@   ensures mirrored_recognised_after_its_expired_marker_was_removed: len(cmds) >= 2 && markerExpiry(cmds[0]) && markerSet(cmds[1]) ==> result
 //@   loop 1:
 //@     invariant only_removals_of_expired_markers_so_far: 0 - 1 <= rangeindex && rangeindex < len(cmds) && (forall j int :: 0 <= j && j <= rangeindex ==> markerExpiry(cmds[j]) && !markerSet(cmds[j]))
-//@   ensures mirrored_recognised: len(cmds) > 0 && SpecLower(cmds[0].Cmd) == "set" && len(cmds[0].Args) >= 2 && SpecHasPrefix(string(cmds[0].Args[0]), "redis-gunyu-bisync:") && SpecContains(string(cmds[0].Args[0]), ":marker:{") ==> result
+//@   ensures mirrored_recognised: len(cmds) > 0 && SpecLower(cmds[0].Cmd) == "set" && len(cmds[0].Args) >= 2 && SpecHasPrefix(string(cmds[0].Args[0]), "redis-gunyu-bisync:") && keyspec.SpecContains(string(cmds[0].Args[0]), ":marker:{") ==> result
 
 // ---- bidirectional sync: the replay-unit parser loses no foreign command (C13) -----------
 //   accepted     commands that passed the output filters and became a bisyncAofCommand
